@@ -104,7 +104,7 @@ def run_sort_case(job):
         gaf = os.path.join(d, "in.gaf" + ([".gz", ".bgz", ""][zlib.crc32(("sfx" + str(cid)).encode()) % 3] if in_storage == "bgzf" else ""))
         write_text(gaf, join_lines(lines, cid), in_storage, block=block)
         out = os.path.join(d, "out.gaf" + (".gz" if out_bgzip else ""))
-        to_stdout = mode != "C10" and not out_bgzip and not outind and pad == 0 and (len(recs) + zlib.crc32(str(cid).encode())) % 3 == 1
+        to_stdout = mode != "C10" and not out_bgzip and not outind and pad in (0, 61) and (len(recs) + zlib.crc32(str(cid).encode())) % 3 == 1
         argv = ["sort", gaf, gfa] + ([] if to_stdout else ["--outgaf", out])
         gsi_path = out + ".gsi"
         if out_bgzip:
@@ -117,6 +117,18 @@ def run_sort_case(job):
         if to_stdout and r["status"] == "ok":      # no --outgaf: the sorted records go to standard output
             with open(out, "w") as f:
                 f.write(r["stdout"])
+        if to_stdout and pad == 61 and r["status"] == "ok" and zlib.crc32(("asc" + str(cid)).encode()) % 2 == 0:
+            # (read names with non-ASCII characters) the real command line with a standard output that cannot encode them
+            # (PYTHONIOENCODING=ascii, a C locale without UTF-8 mode): refusing loudly is fine, writing other records is not
+            import subprocess
+            import sys
+            from engine import REPO
+
+            pr = subprocess.run([sys.executable, "-m", "gaftools"] + argv, capture_output=True, timeout=120,
+                                env=dict(os.environ, PYTHONPATH=REPO, PYTHONIOENCODING="ascii", PYTHONUTF8="0"))
+            if pr.returncode == 0:
+                with open(out, "wb") as f:
+                    f.write(pr.stdout)
         c = {"id": cid, "mode": mode, "file": recs, "status": r["status"] if r["status"] == "ok" else r["status"] + ":" + r["exc"][:50],
              "out": [], "gsi": [], "gsi_exists": os.path.exists(gsi_path), "reader_ok": True,
              "cfg": {"in": in_storage, "bgzip": out_bgzip, "outind": outind, "pad": pad, "stdout": to_stdout, "graph": variant}}
